@@ -684,6 +684,12 @@ def sync_before_handover(ctx, p):
         INNER = ['std::io::BufWriter::<W>::into_inner', 're:BufWriter.*::flush$', 're:Write>::flush$']
         if helper is not None:
             hb, pe = helper
+            hs = hb.call_sites(SYNC_DATA, SYNC_ALL)
+            unchecked = [x for x in hs if not lib.result_err_targets(hb, x)]
+            ctx.ob(p + 'd2 helper-reports-a-failed-sync', 'K3-result-checked', hb.path,
+                   'in the write-out helper the result of sync_data is looked at: its error outcome leaves through an error exit (the hand-over in flush_one depends on the helper\'s result)',
+                   bool(hs) and not unchecked and all(hb.find_path([e], set(core.ok_exit_blocks(hb)), removed=core.error_exit_blocks(hb)) is None for x in hs for e in lib.result_err_targets(hb, x)),
+                   'the result of sync_data is dropped' if unchecked else '', hb.loc(hs[0]) if hs else hb.loc())
             lib.precedes(ctx, p + 'e bufwriter-flushed-before-sync', hb, lib.must_sites(hb, INNER), hb.call_sites(SYNC_DATA, SYNC_ALL),
                          'buffered log bytes are written (BufWriter::into_inner/flush) before sync_data', removed_edges=pe)
         else:
